@@ -21,7 +21,7 @@ from lib import common, e2e, pipeline, render
 from lib.common import ToolError
 
 BASE = ['const CI: int = 7', 'const CN: int = -3', 'const CF: float = 2.5', 'const CS: str = "aé€\U0001F600b"',
-        'const CT: str = "é"', 'const CB: bool = true']
+        'const CT: str = "é"', 'const CB: bool = true', 'const CE: str = ""']
 TYMAP = {"int": "int", "float": "float", "bool": "bool", "str": "FrozenStr"}
 
 
@@ -134,7 +134,7 @@ def run(ctx):
         src_e = render.render_expr(r["e"])
         decls = "\n".join(l.replace("const C", "const C{N}_") for l in []) + ""
         # per-case const names are suffixed so that cases can share a batch
-        base = [l.replace("CI", "CI{N}").replace("CN", "CN{N}").replace("CF", "CF{N}").replace("CS", "CS{N}").replace("CT", "CT{N}").replace("CB", "CB{N}") for l in BASE]
+        base = [l.replace("CI", "CI{N}").replace("CN", "CN{N}").replace("CF", "CF{N}").replace("CS", "CS{N}").replace("CT", "CT{N}").replace("CB", "CB{N}").replace("CE", "CE{N}") for l in BASE]
         e_n = _suffix(src_e)
         decls = "\n".join(base) + f"\nconst K{{N}} = {e_n}\n\ndef f{{N}}() -> {render.TY[r['ty']]}:\n    return {e_n}\n"
         cases.append({"id": f"k{k}", "decls": decls, "body": ["println(K{N})", "println(f{N}())"], "aborts": False,
@@ -143,7 +143,7 @@ def run(ctx):
     esample = err_rows if len(err_rows) <= (10 if ctx.quick else 60) else rnd.sample(err_rows, 10 if ctx.quick else 60)
     for k, r in enumerate(esample):
         src_e = render.render_expr(r["e"])
-        base = [l.replace("CI", "CI{N}").replace("CN", "CN{N}").replace("CF", "CF{N}").replace("CS", "CS{N}").replace("CT", "CT{N}").replace("CB", "CB{N}") for l in BASE]
+        base = [l.replace("CI", "CI{N}").replace("CN", "CN{N}").replace("CF", "CF{N}").replace("CS", "CS{N}").replace("CT", "CT{N}").replace("CB", "CB{N}").replace("CE", "CE{N}") for l in BASE]
         e_n = _suffix(src_e)
         decls = "\n".join(base) + f"\n\ndef f{{N}}() -> {render.TY[r['ty']]}:\n    return {e_n}\n"
         cases.append({"id": f"x{k}", "decls": decls, "body": ["println(f{N}())"], "aborts": True,
@@ -184,7 +184,7 @@ def run(ctx):
 
 def _suffix(src):
     import re
-    return re.sub(r"\b(CI|CN|CF|CS|CT|CB)\b", r"\1{N}", src)
+    return re.sub(r"\b(CI|CN|CF|CS|CT|CB|CE)\b", r"\1{N}", src)
 
 
 def replay(ctx, path):
